@@ -296,4 +296,62 @@ def c09(tier):
                       'status of any real command is a violation')
 
 
-CHECKS = {'C08': c08, 'C09': c09, 'C10': c10, 'C12': c12, 'C07': c07, 'C17': c17, 'C04': c04, 'C01': c01, 'C02': c02, 'C03': c03, 'C05': c05, 'C11': c11, 'C14': c14}
+ASSUME_MULTI = [
+    'TLC 1.8 and the CommunityModules are correct',
+    'the trace specifications state the protocol of builder.rs / state.rs; they are bound to the code by validating the '
+    'lock, script, transaction and token events of every recorded concurrent execution',
+    'event order in the trace file is a sound total order (giving events logged before, taking events after the system '
+    'call; script markers logged after the script began / before it ends)',
+    'fcntl locks and SQLite behave as documented (per-process locks dropped at death; WAL, one writer)',
+]
+
+
+def c06(tier):
+    import time
+    import multicheck
+    t0 = time.time()
+    verdict = common.Verdict('C06')
+    # (a) every interleaving of one process tree at -j2/-j3 (RedoSys)
+    v, cov, te, wall = syscheck.run_family(
+        'C06', tier, programs.parallel_family(), ['ScriptMutex', 'HoldThroughRecord', 'ScriptUnderLock', 'NoDupRun'], [],
+        {'rc', 'ran', 'file', 'row.gen', 'row.failed'}, (3, 2), sample_n=None if tier == 'thorough' else 12,
+        jitter=True, repeat=2 if tier == 'thorough' else 1, verdict=verdict,
+        required_actions=['AcquireA', 'ReleaseA', 'Pass2A', 'UnlockedStepA'],
+        note='RedoSys at -j2/-j3: siblings contending for shared targets, redo-unlocked delegates')
+    # (b) several invocations at once: recorded lock / script / commit events against TraceLocks
+    real = multicheck.run_check('C06', tier, 'locks', verdict)
+    cov['behaviours_replayed_on_real_code'] = cov.get('traces_validated_against_impl', 0)
+    cov.update(real)
+    cov['traces_validated_against_impl'] = real['traces_validated_against_impl'] + cov['behaviours_replayed_on_real_code']
+    cov['note'] = ('(a) TLC: ScriptMutex / HoldThroughRecord / ScriptUnderLock on every interleaving of parallel process trees '
+                   '(RedoSys); (b) 2-6 top-level commands started together on random DAGs (fresh and existing state dirs, '
+                   'failing scripts, checksummed targets, log capture): every lock grant/release, decision, script begin/end, '
+                   'result record and commit of every process is checked by TLC against the lock protocol (TraceLocks): '
+                   'decide only under the lock or as redo-unlocked delegate of the holder, no overlap of two scripts of one '
+                   'target, lock held until the result is committed')
+    return finish('C06', tier, verdict, cov, te, time.time() - t0, assumptions=ASSUME_MULTI)
+
+
+def c16(tier):
+    import time
+    import multicheck
+    import dbmodel
+    t0 = time.time()
+    verdict = common.Verdict('C16')
+    d = common.workdir('C16_%s_mc' % tier)
+    cov, te = dbmodel.mc_part(tier, d, verdict)
+    real = multicheck.run_check('C16', tier, 'db', verdict)
+    cov.update(real)
+    cov['exhaustive'] = True
+    cov['note'] = ('(a) TLC: RedoDb (SQLite WAL rules + the transaction scripts of the commands) for 2-4 concurrent builds and '
+                   'queries, with and without an existing database: NoSpuriousFailure, NoLostState, RunIdsDistinct, NotStuck; '
+                   'the pinned start-up (deferred transaction, exists/unlink/create) is kept as a mode and must yield the '
+                   'counterexamples; (b) 3-10 commands (redo, redo-ifchange, redo-ood, redo-targets, redo-sources) started '
+                   'together, half of the scenarios on a project without .redo: any database/lock error text or unexplained '
+                   'non-zero exit is a violation; every TxBegin/RowSave/DepAdd/Commit is replayed by TLC (TraceDb: one writer '
+                   'at a time, writes only under the write lock, run ids distinct) and the final database must equal the '
+                   'committed state; pragma integrity_check')
+    return finish('C16', tier, verdict, cov, te, time.time() - t0, assumptions=ASSUME_MULTI)
+
+
+CHECKS = {'C06': c06, 'C16': c16, 'C08': c08, 'C09': c09, 'C10': c10, 'C12': c12, 'C07': c07, 'C17': c17, 'C04': c04, 'C01': c01, 'C02': c02, 'C03': c03, 'C05': c05, 'C11': c11, 'C14': c14}
